@@ -41,7 +41,8 @@ META = dict(
              "threshold (threshold-assume policy)", "BosonOperator and operators of other openfermion classes",
              "operators with more than 2 terms per operand or more than 3 modes/qubits",
              "do_commute / encodings take concrete Pauli words (no coefficient dependence): enumerated, not symbolic",
-             "MultiformOperator.get_kernel / remove_terms / compress (not part of the property statement)"],
+             "MultiformOperator.get_kernel (not part of the property statement); remove_terms / compress only as histories before the "
+             "product and the commutation test (multiform/history/*, enumerated)"],
     stubs=[], trusted_base=["symx.opalg reference algebra (cross-checked against pure-openfermion control shapes)"],
 )
 
@@ -596,6 +597,52 @@ def h_mf_commute(env, n, cases, canary=False, after_compress=False):
                        f"A={list(wa)} B={list(wb)}: got {got}, expected {all(ref_terms)}")
 
 
+def h_mf_history(env, n, words, removal, tol):
+    """histories: after the documented in-place updates remove_terms(indices) (int, list or array form, index 0 included) and
+    compress(abs_tol) (an explicit 0 included) every form of the operator - terms, exported QubitOperator, integer/factors arrays -
+    describes the SAME operator, namely the input with the named terms / the coefficients at or below the tolerance taken out, and
+    the array product and commutation test of the updated operator agree with the symbolic form"""
+    import numpy as np
+    from tangelo.toolboxes.operators import MultiformOperator
+    from tangelo.toolboxes.operators.multiformoperator import do_commute
+    small = [1.0, -2.5, 3e-9, 0.75, -4e-10, 1.5]
+    coefs = [small[i % len(small)] * (1 + i // len(small)) for i in range(len(words))]
+    m = MultiformOperator.from_qubitop(_qop(words, coefs), n)
+    order = [A.ints_to_word(r) for r in m.integer.tolist()]          # the operator's own term order (indices refer to it)
+    cur = dict(zip(words, coefs))
+    if removal is not None:
+        idx = removal
+        m.remove_terms(idx if not isinstance(idx, tuple) else np.array(idx))
+        gone = [idx] if isinstance(idx, int) else list(idx)
+        for i in gone:
+            cur.pop(order[i])
+    if tol is not None:
+        m.compress(abs_tol=tol, n_qubits=n)
+        cur = {w: c for w, c in cur.items() if abs(c) > tol}
+    label = f"after remove_terms({removal!r})" if removal is not None else ""
+    label += (" and " if label and tol is not None else "") + (f"after compress(abs_tol={tol!r})" if tol is not None else "")
+    x, y, _ = A.d_vectors(dict(m.terms), cur)
+    env.check_vec_eq(x, y, f"MultiformOperator {label}: terms == input without the removed terms")
+    x, y, _ = A.d_vectors(dict(m.qubitoperator.terms), cur)
+    env.check_vec_eq(x, y, f"MultiformOperator {label}: exported QubitOperator == input without the removed terms")
+    got = {}
+    for r, c in zip(m.integer.tolist(), list(m.factors)):
+        got = A.d_add(got, {A.ints_to_word(r): c})
+    x, y, _ = A.d_vectors(got, cur)
+    env.check_vec_eq(x, y, f"MultiformOperator {label}: integer/factors arrays == input without the removed terms")
+    env.check_same((m.binary.shape[0], m.binary_swap.shape[0], m.n_terms), (len(cur),) * 3, f"MultiformOperator {label}: binary forms and n_terms have one row per remaining term")
+    other_w = [((0, "X"),), ((0, "Z"), (n - 1, "Z")) if n > 1 else ((0, "Z"),)]
+    other = MultiformOperator.from_qubitop(_qop(other_w, [2.0, -1.0]), n)
+    if cur:
+        prod = m * other
+        ref = A.q_mul(cur, dict(zip(other_w, [2.0, -1.0])))
+        x, y, _ = A.d_vectors({w: c for w, c in prod.terms.items() if abs(c) > 0}, {w: c for w, c in ref.items() if abs(c) > 0})
+        env.check_vec_eq(x, y, f"MultiformOperator {label}: product with another operator == reference product of the remaining terms")
+        want = [all(A.words_commute(w, v) for v in other_w) for w in [A.ints_to_word(r) for r in m.integer.tolist()]]
+        gotc = [bool(v) for v in np.asarray(do_commute(m, other, term_resolved=True)).tolist()]
+        env.check_same(gotc, want, f"MultiformOperator {label}: do_commute(term_resolved) refers to the remaining terms")
+
+
 # ------------------------------------------------------------------ enumeration
 FERMI_POOL = [
     (), ((0, 1), (1, 0)), ((1, 1), (0, 0)), ((2, 1), (0, 0)), ((0, 1), (0, 0)), ((1, 0), (1, 1)),
@@ -756,6 +803,10 @@ def shapes(tier, seed):
     asym3 = [((0, "X"), (2, "Z")), ((0, "Z"), (1, "Y")), ((2, "X"),), ((0, "Y"), (1, "X"), (2, "Z"))]
     out.append(Shape("multiform/commute/n3/after-compress", h_mf_commute,
                      dict(n=3, cases=[((a,), (b,)) for a in asym3 for b in asym3], after_compress=True), modules=MODS))
+    hist_words = [((0, "X"), (1, "Y")), ((0, "Z"),), ((1, "X"),), ((0, "Y"), (1, "Y")), ((1, "Z"),), ((0, "X"),)]
+    for i_, (rm_, tol_) in enumerate([(0, None), ([0], None), ((0,), None), (1, None), ([0, 2], None), ((5, 0), None), ([], None), (None, 0), (None, 0.0),
+                                      (None, 1e-9), (None, 1e-12), (None, 2.0), (0, 0), ([1, 3], 1e-9)]):
+        out.append(Shape(f"multiform/history/{i_:02d}/rm={rm_}/tol={tol_}", h_mf_history, dict(n=2, words=hist_words, removal=rm_, tol=tol_), modules=()))
     out.append(Shape("multiform/commute/n1/1x1", h_mf_commute, dict(n=1, cases=[((a,), (b,)) for a in w1 for b in w1]), modules=MODS))
     for i, wa in enumerate(w2):
         out.append(Shape(f"multiform/commute/n2/1x1/{i:02d}", h_mf_commute, dict(n=2, cases=[((wa,), (wb,)) for wb in w2]), modules=MODS))
